@@ -15,7 +15,7 @@
 (***************************************************************************)
 EXTENDS Integers, Sequences, FiniteSets, TLC
 
-CONSTANTS Part    \* "msg" | "der" | "loops"
+CONSTANTS Part    \* "msg" | "der" | "loops" | "counts" | "sizes" | "replies" | "scan" (+ wrong variants)
 
 ---------------------------------------------------------------------------
 (* (1) messages: name -> sequence of field kinds *)
@@ -153,6 +153,25 @@ ReplyCases == { <<k, i>> : k \in ReqKinds, i \in Instead }
 WaiterOutcome(k, i, hangs) == IF hangs /\ i \in {"close", "eof_close"} THEN "pending" ELSE "resolved"
 
 ---------------------------------------------------------------------------
+(* (7) the scanner behind the LIST imports of keys and certificates           *)
+(* (public_key.py _match_next, driven by _decode_public_list /               *)
+(* _decode_certificate_list / _decode_private_list, i.e. read_*_list,        *)
+(* load_certificates, authorized_keys and known_hosts CA files): a loop over *)
+(* a text the peer or a file supplies.  Every iteration finds the next item  *)
+(* (a one-line OpenSSH key or certificate, a PEM or RFC 4716 block, or       *)
+(* nothing) and hands back the offset at which the search goes on.  The last *)
+(* line of a text need not be terminated: the offset behind it is the end of *)
+(* the text.  ScanZeroEnd is the wrong variant in which a missing terminator *)
+(* yields offset 0 (find() + 1 of nothing) and the scanner starts over.      *)
+ScanFuncs == {"pubkeys", "certs", "certs_data", "privkeys"}
+ScanItems == {"pubkey", "cert", "garbage", "blank", "pem", "rfc4716", "privpem", "comment"}
+ScanEnds == {"lf", "crlf", "none", "space"}     \* what follows the LAST line of the text
+ScanCases == { <<f, i1, i2, e>> : f \in ScanFuncs, i1 \in ScanItems \cup {"-"}, i2 \in ScanItems,
+                                  e \in ScanEnds }
+\* does the search position move forward over the last item?
+ScanAdvances(e, zeroEnd) == ~(zeroEnd /\ e \in {"none", "space"})
+
+---------------------------------------------------------------------------
 VARIABLES case
 Init == \/ Part = "counts" /\ case \in CountCases
         \/ Part = "counts_swallow" /\ case \in CountCases
@@ -164,6 +183,8 @@ Init == \/ Part = "counts" /\ case \in CountCases
         \/ Part = "replies_hang" /\ case \in ReplyCases
         \/ Part = "sizes" /\ case \in SizeCases
         \/ Part = "sizes_truthy" /\ case \in SizeCases
+        \/ Part = "scan" /\ case \in ScanCases
+        \/ Part = "scan_zero_end" /\ case \in ScanCases
 Next == UNCHANGED case
 Spec == Init /\ [][Next]_case
 
@@ -187,6 +208,10 @@ SizeProgress ==
 WaiterResolved ==
     Part \in {"replies", "replies_hang"} =>
         WaiterOutcome(case[1], case[2], Part = "replies_hang") = "resolved"
+
+\* every iteration of the list scanner moves on, whatever ends the text
+ScanProgress ==
+    Part \in {"scan", "scan_zero_end"} => ScanAdvances(case[4], Part = "scan_zero_end")
 
 Emit == PrintT(ToString(<<"SCRIPT", case, Part>>))
 =============================================================================
